@@ -23,15 +23,20 @@ import (
 func init() { engines["storage"] = engStorage }
 
 // runStorageCase applies the events to a fresh store of every selected back end.
+// reopenBadger: also badger is closed and opened again for the second read-back (it is by far the most
+// expensive back end to open; the other three always are)
+var reopenBadger = false
+
 func runStorageCase(env *storeEnv, evs []stEvent, use [beCount]bool, out *sx.Out) {
 	el := sx.L{}
 	for _, e := range evs {
 		el = append(el, e.enc)
 	}
-	obs := sx.L{}
+	obs, reopened := sx.L{}, sx.L{}
 	for be := 0; be < beCount; be++ {
 		if !use[be] {
 			obs = append(obs, sx.L{})
+			reopened = append(reopened, sx.L{})
 			continue
 		}
 		loc := env.fresh(be)
@@ -44,9 +49,22 @@ func runStorageCase(env *storeEnv, evs []stEvent, use [beCount]bool, out *sx.Out
 		}
 		obs = append(obs, readBack(h))
 		_ = h.Stop() // pebble reports the iterators its Stored* methods leak; irrelevant here
+		// the same store closed and opened again: what has been deleted must stay deleted, what has been
+		// written must still be there
+		if be == beBadger && !reopenBadger {
+			reopened = append(reopened, sx.L{})
+			env.discard(loc)
+			continue
+		}
+		h2, err := env.open(loc)
+		if err != nil {
+			panic(beNames[be] + " reopen: " + err.Error())
+		}
+		reopened = append(reopened, readBack(h2))
+		_ = h2.Stop()
 		env.discard(loc)
 	}
-	out.Case(sx.L{el, obs})
+	out.Case(sx.L{el, obs, reopened})
 }
 
 type stGen struct {
@@ -352,6 +370,39 @@ func storageDirected() [][]stEvent {
 					evSubscribed(id, packets.Subscriptions{g.subscription("a/b")}, []byte{rc})})
 		}
 	}
+	// one record key written several times, then deleted: nothing may be left, also after the store has
+	// been closed and opened again
+	{
+		gm := &stGen{rng: rand.New(rand.NewSource(13))}
+		pub := gm.packet(packets.Publish, "a/b", 7)
+		pub.FixedHeader.Dup = false
+		dup := pub
+		dup.FixedHeader.Dup = true
+		rel := gm.packet(packets.Pubrel, "", 7)
+		other := gm.packet(packets.Publish, "a/c", 8)
+		for _, end := range []stEvent{evQosComplete("q:2", 7), evQosDropped("q:2", 7)} {
+			hs = append(hs,
+				[]stEvent{evQosPublish("q:2", pub, 1), evQosPublish("q:2", rel, 2), end},
+				[]stEvent{evQosPublish("q:2", pub, 1), evQosPublish("q:2", dup, 2), evQosPublish("q:2", rel, 3), evQosPublish("q:2", other, 3), end},
+				[]stEvent{evQosPublish("q:2", pub, 1), evQosPublish("q:2", rel, 2), end, evQosPublish("q:2", other, 4)})
+		}
+		hs = append(hs, []stEvent{evQosPublish("q:2", pub, 1), evQosPublish("q:2", dup, 2), evQosPublish("q:2", rel, 3)})
+		s1, s2 := gm.subscription("f/#"), gm.subscription("f/#")
+		s2.Qos, s2.NoLocal = 2, true
+		hs = append(hs,
+			[]stEvent{evSubscribed("s", packets.Subscriptions{s1}, []byte{1}), evSubscribed("s", packets.Subscriptions{s2}, []byte{2}), evUnsubscribed("s", []string{"f/#"})},
+			[]stEvent{evSubscribed("s", packets.Subscriptions{s1}, []byte{1}), evSubscribed("s", packets.Subscriptions{s2}, []byte{2})})
+		r1, r2 := gm.packet(packets.Publish, "r/t", 0), gm.packet(packets.Publish, "r/t", 0)
+		hs = append(hs,
+			[]stEvent{evRetain("p", r1, 1), evRetain("p", r2, 0), evRetain("p", r1, -1)},
+			[]stEvent{evRetain("p", r1, 1), evRetain("p", r2, 0), evRetainedExpired("r/t")},
+			[]stEvent{evRetain("p", r1, 1), evRetain("p", r2, 0)})
+		c1, c2 := gm.client("c:9"), gm.client("c:9")
+		hs = append(hs,
+			[]stEvent{evSessionEstablished(c1, false), evSessionEstablished(c2, false), evClientExpired("c:9")},
+			[]stEvent{evSessionEstablished(c1, false), evSessionEstablished(c2, false), evDisconnect(c2, false, true)},
+			[]stEvent{evSessionEstablished(c1, false), evWillSent(c2, false), evDisconnect(c1, false, false)})
+	}
 	// several records per type, keys sorting so that records with many non-default fields and bare
 	// records alternate: every Stored* method has to decode each record on its own
 	{
@@ -457,8 +508,18 @@ func engStorage(seed int64, tier string, _ []string, out *sx.Out) {
 	// (iv) directed, on all four back ends: a take-over seen by the hooks in both orders, and refused
 	// filters at the boundary reason codes
 	for _, evs := range storageDirected() {
+		// deletions are what a reopened store can get wrong
+		reopenBadger = false
+		for _, e := range evs {
+			if l, ok := e.enc.(sx.L); ok {
+				if k, ok := l[0].(sx.N); ok && (k == 2 || k == 4 || k == 7 || k == 8 || k == 10 || k == 11) {
+					reopenBadger = true
+				}
+			}
+		}
 		runStorageCase(env, evs, all, out)
 	}
+	reopenBadger = false
 
 	// (iii) extreme operands: keys around the engines' key-size limits (bbolt 32768, badger 65000),
 	// the longest MQTT string, identifiers made of the key syntax itself
